@@ -2,7 +2,10 @@
 PROP = dict(
     modules=["CG.Props.C03"],
     required_theorems=["C03_lock_always_runs", "C03_lock_verdict_not_ignored", "C03_pinned_bypass_op_return",
-                       "C03_pinned_bypass_swallowing_push", "C03_repaired_rejects_bypasses"],
+                       "C03_pinned_bypass_swallowing_push", "C03_repaired_rejects_bypasses",
+                       "C03_p2pkh_sound", "C03_p2pk_sound", "C03_msloop_sound", "C03_multisig_sound", "C03_authorisation",
+                       "C03_no_signature_no_spend_p2pkh", "C03_no_signature_no_spend_p2pk", "C03_no_signature_no_spend_multisig",
+                       "C03_der_strict", "C03_der_roundtrip", "C03_low_s", "C03_sig_bip66", "C03_sig_length"],
     rule="c03.spend: Tx::validate (real TransactionChecker, real sighash, k256) on a spend of a P2PKH / P2PK / 2-of-3 / 1-of-1 multisig "
          "output whose unlocking script is attacker-chosen and contains no valid signature: every opcode sequence of length <= 2 over "
          "{opcodes 79..185} U {9 boundary pushes} U {pushes and PUSHDATA1/2/4 prefixes whose declared length is |lock|, |lock|+1, "
@@ -24,6 +27,9 @@ CLAIM = dict(
          "script; kernel-checked witnesses that the pinned single-program structure accepted OP_1 OP_RETURN and a lock-swallowing push. "
          "Correspondence: ~430k attacker unlocking scripts (bounded-exhaustive to length 2, sampled 3-4, grammar/hostile) against four "
          "key-locked templates through the real Tx::validate, plus signature canonicality judged by an independent verifier. Template "
-         "soundness theorems (P2PKH/P2PK/multisig) and DER/low-S theorems are being added (see evidence for the current list).",
+         "soundness for EVERY unlocking script, initial stack and checker: P2PKH, P2PK and m-of-n multisig (all 1<=m<=n<=16) are accepted "
+         "only if the lock's own check_sig calls answered true for the locked keys (C03_authorisation, C03_no_signature_no_spend_*); "
+         "signature form: the DER framing is strict (BIP-66), 9..73 bytes with type byte, S normalised to the low half. Field coverage "
+         "of the sighash types is under C02 (preimage injectivity).",
     note="Trusted: Lean kernel; k256; differential tie bounded by generators; cryptographic hardness assumed.",
 )
